@@ -19,6 +19,15 @@ func ZZH_C15_decision() {
 	zz.Assume(avail <= t)
 	zz.Assume(a <= avail) // (not a+r <= avail: that holds for huge a, r through wrap-around)
 	zz.Assume(r <= avail-a)
+	// an earlier evaluation in the same process (another proposal, or the same one before the
+	// electorate changed): same expression and tally, any other number of available electors
+	if zz.Choice("earlierEvaluation", 2) == 1 {
+		avail0 := zz.U64("availEarlier")
+		zz.Assume(avail0 <= t)
+		zz.Assume(a <= avail0)
+		zz.Assume(r <= avail0-a)
+		_, _, _ = MakeStrategyDecision(exprs[k], a, r, t, avail0)
+	}
 	end, pass, err := MakeStrategyDecision(exprs[k], a, r, t, avail)
 	zz.Assert("C15.decision.noerr", err == nil)
 	holds := func(x uint64) bool {
